@@ -491,7 +491,7 @@ fn disrace(x: &mut Exec) -> Res {
     let errs = Arc::new(std::sync::Mutex::new(Vec::<String>::new()));
     // work items: the receiver gets the Rx (over a may channel if it is a coroutine, so that it
     // waits cooperatively), the sender the Tx over a std channel
-    let (rx_work_tx, rx_work_rx) = mpsc::channel::<(Rx, u64)>();
+    let (rx_work_tx, rx_work_rx) = mpsc::channel::<(Rx, u64, bool, bool)>();
     let (tx_work_tx, tx_work_rx) = std::sync::mpsc::channel::<(Tx, u64, bool)>();
     let rounds_done = Arc::new(AtomicUsize::new(0));
     let go = Arc::new(AtomicUsize::new(0));
@@ -499,7 +499,7 @@ fn disrace(x: &mut Exec) -> Res {
         let (errs, rd, go) = (errs.clone(), rounds_done.clone(), go.clone());
         x.spawn("receiver", rx_co, move |a| {
             let mut n = 0usize;
-            while let Ok((rx, spins)) = rx_work_rx.recv() {
+            while let Ok((rx, spins, poll, sent)) = rx_work_rx.recv() {
                 n += 1;
                 while go.load(SeqCst) < n {
                     std::hint::spin_loop();
@@ -509,16 +509,30 @@ fn disrace(x: &mut Exec) -> Res {
                 }
                 a.call("recv-until-disconnected", n as u64);
                 let mut got = 0;
+                let mut polls = 0u64;
                 loop {
-                    match rx.recv() {
+                    // half of the rounds poll with try_recv: the window between its failed pop and its look at the
+                    // sender count is a few instructions wide and has no hook, only a tight loop gets into it
+                    match if poll { rx.try_recv() } else { rx.recv() } {
                         Got::Val(_) => got += 1,
                         Got::Disc => break,
-                        _ => {}
+                        _ => {
+                            polls += 1;
+                            if polls % 64 == 0 && a.is_co() {
+                                may::coroutine::yield_now();
+                            }
+                        }
                     }
                     if got > 1 {
                         errs.lock().unwrap().push("received more values than were sent".into());
                         break;
                     }
+                }
+                // the sender sends (if at all) before it drops its handle: whoever is told Disconnected has been handed
+                // the value first ("first drains the values still queued and then gets Disconnected")
+                if got == 0 && sent {
+                    let late = matches!(rx.try_recv(), Got::Val(_));
+                    errs.lock().unwrap().push(format!("round {}: {} reported Disconnected before the value that was sent ahead of the drop{}", n, if poll { "try_recv" } else { "recv" }, if late { " - a later try_recv still found it in the queue" } else { "" }));
                 }
                 a.ret("recv-until-disconnected", n as u64, got);
                 drop(rx);
@@ -550,9 +564,10 @@ fn disrace(x: &mut Exec) -> Res {
     for round in 1..=rounds {
         let (tx, rx) = make(kind);
         let (a, b) = (x.rng.below(600), x.rng.below(600));
-        let send_one = x.rng.chance(1, 8);
+        let send_one = x.rng.chance(1, 2);
+        let poll = x.rng.chance(1, 2);
         let _ = tx_work_tx.send((tx, a, send_one));
-        let _ = rx_work_tx.send((rx, b));
+        let _ = rx_work_tx.send((rx, b, poll, send_one));
         go.store(round, SeqCst);
         let rd = rounds_done.clone();
         x.wait_cond(&move || rd.load(SeqCst) >= round).map_err(|e| match e {
